@@ -773,6 +773,103 @@ starts with its fixed prefix, so the `assert!(combined_len >= prefix_len)` of `t
 slicing at `after_namespace_index` are never out of range. -/
 theorem c14_prefixes_kept (cfg : Config) {s : State} (h : Reachable cfg s) : s.WF cfg := h.wf
 
+/-! ### The iteration order of the dimension-set map only permutes the split records
+
+The real `dimension_set_map` is a hash map: `values_mut()` visits the entries in an order that may
+depend on capacity and therefore on history. The model visits them in insertion order. The lemmas
+below show that, for a writer that does not fail, visiting the entries in any other order yields the
+same records up to their order (and the same decision about the "no-dimensions" record). -/
+
+/-- the record written for one entry (`none`: "skip metric line with no metrics") -/
+def entryLine (c : Consts) (ts sf : Bytes) (e : DimEntry) : Option Bytes :=
+  if e.fieldsBuf.isEmpty then none
+  else some [(finishEntryMetrics c ts e).buf, e.fieldsBuf.buf, sf].flatten
+
+theorem finishDims_lines (c : Consts) (ts sf : Bytes) (dm : List DimEntry) (bytes0 : Bytes) (any : Bool) :
+    (finishDims c ts sf dm ⟨none, bytes0, false⟩ any).2.1 =
+      ⟨none, bytes0 ++ (dm.filterMap (entryLine c ts sf)).flatten, false⟩ ∧
+    (finishDims c ts sf dm ⟨none, bytes0, false⟩ any).2.2 =
+      (any || !(dm.filterMap (entryLine c ts sf)).isEmpty) := by
+  induction dm generalizing bytes0 any with
+  | nil => simp [finishDims]
+  | cons e rest ih =>
+    unfold finishDims
+    simp only
+    cases hemp : e.fieldsBuf.isEmpty with
+    | true =>
+      have hl : entryLine c ts sf e = none := by simp [entryLine, hemp]
+      simp only [↓reduceIte, List.filterMap_cons, hl]
+      exact ih bytes0 any
+    | false =>
+      have hl : entryLine c ts sf e = some [(finishEntryMetrics c ts e).buf, e.fieldsBuf.buf, sf].flatten := by
+        simp [entryLine, hemp]
+      have hw : Out.writeAll ⟨none, bytes0, false⟩ [(finishEntryMetrics c ts e).buf, e.fieldsBuf.buf, sf] =
+          ⟨none, bytes0 ++ [(finishEntryMetrics c ts e).buf, e.fieldsBuf.buf, sf].flatten, false⟩ := rfl
+      simp only [Bool.false_eq_true, ↓reduceIte, List.filterMap_cons, hl, hw]
+      obtain ⟨h1, h2⟩ := ih (bytes0 ++ [(finishEntryMetrics c ts e).buf, e.fieldsBuf.buf, sf].flatten) true
+      rw [h1, h2]
+      simp [List.append_assoc]
+
+/-- the records written by `finish` (after validation passed) to a writer that never fails, as a list -/
+def recordLines (c : Consts) (st : State) (dims : List Bytes) (ts : Bytes) : List Bytes :=
+  let sf := st.stringFieldsBuf.buf ++ bytes! "}\n"
+  let split := st.dimMap.filterMap (entryLine c ts sf)
+  if split.isEmpty || !st.fieldsBuf.isEmpty then
+    split ++ [(finishGlobal c
+      { st with declBuf := (st.declBuf.pushRaw c.logGroupTs).pushRaw ts,
+                stringFieldsBuf := st.stringFieldsBuf.pushRaw (bytes! "}\n") } dims ⟨none, [], false⟩).2.2.bytes]
+  else split
+
+theorem finishGlobal_bytes (c : Consts) (st : State) (dims : List Bytes) (b : Bytes) :
+    (finishGlobal c st dims ⟨none, b, false⟩).2 =
+      (.ok, ⟨none, b ++ (finishGlobal c st dims ⟨none, [], false⟩).2.2.bytes, false⟩) := by
+  unfold finishGlobal
+  simp [Out.writeAll]
+
+theorem finishGlobal_dimMap (c : Consts) (st : State) (dm : List DimEntry) (dims : List Bytes) (o : Out) :
+    (finishGlobal c { st with dimMap := dm } dims o).2 = (finishGlobal c st dims o).2 := rfl
+
+/-- what `finish` writes is the concatenation of `recordLines` -/
+theorem finishWrite_recordLines (c : Consts) (st : State) (dims : List Bytes) (ts : Bytes) :
+    (finishWrite c st dims ts ⟨none, [], false⟩).2 =
+      (.ok, ⟨none, (recordLines c st dims ts).flatten, false⟩) := by
+  unfold finishWrite recordLines
+  simp only
+  obtain ⟨h1, h2⟩ := finishDims_lines c ts (st.stringFieldsBuf.pushRaw (bytes! "}\n")).buf st.dimMap [] false
+  generalize finishDims c ts (st.stringFieldsBuf.pushRaw (bytes! "}\n")).buf st.dimMap ⟨none, [], false⟩ false = r at *
+  obtain ⟨dm', o1, any⟩ := r
+  simp only at h1 h2
+  subst h1 h2
+  have hsf : (st.stringFieldsBuf.pushRaw (bytes! "}\n")).buf = st.stringFieldsBuf.buf ++ bytes! "}\n" := rfl
+  simp only [hsf, Bool.false_eq_true, ↓reduceIte, Bool.false_or, List.nil_append, Bool.not_not]
+  split
+  · rw [finishGlobal_bytes]
+    simp only [List.flatten_append, List.flatten_cons, List.flatten_nil, List.append_nil]
+    rfl
+  · rfl
+
+/-- **C14, iteration order.** If the dimension-set map is visited in another order (any permutation
+of its entries), the records written are the same up to their order, and the result is the same. -/
+theorem c14_map_order_irrelevant (c : Consts) (st : State) (dm' : List DimEntry) (hp : dm'.Perm st.dimMap)
+    (dims : List Bytes) (ts : Bytes) :
+    (recordLines c { st with dimMap := dm' } dims ts).Perm (recordLines c st dims ts) ∧
+    (finishWrite c { st with dimMap := dm' } dims ts ⟨none, [], false⟩).2.1 =
+      (finishWrite c st dims ts ⟨none, [], false⟩).2.1 := by
+  refine ⟨?_, by rw [finishWrite_recordLines, finishWrite_recordLines]⟩
+  unfold recordLines
+  simp only
+  have hperm := hp.filterMap (entryLine c ts (st.stringFieldsBuf.buf ++ bytes! "}\n"))
+  have hemp : (dm'.filterMap (entryLine c ts (st.stringFieldsBuf.buf ++ bytes! "}\n"))).isEmpty =
+      (st.dimMap.filterMap (entryLine c ts (st.stringFieldsBuf.buf ++ bytes! "}\n"))).isEmpty := by
+    have hl := hperm.length_eq
+    generalize dm'.filterMap (entryLine c ts (st.stringFieldsBuf.buf ++ bytes! "}\n")) = l1 at *
+    generalize st.dimMap.filterMap (entryLine c ts (st.stringFieldsBuf.buf ++ bytes! "}\n")) = l2 at *
+    cases l1 <;> cases l2 <;> simp_all
+  rw [hemp]
+  split
+  · exact hperm.append_right _
+  · exact hperm
+
 /-! ### Non-vacuity -/
 
 def exCfg : Config :=
@@ -810,3 +907,4 @@ end Emf
 #print axioms Emf.c14_history_independent
 #print axioms Emf.c14_sequence
 #print axioms Emf.c14_prefixes_kept
+#print axioms Emf.c14_map_order_irrelevant
